@@ -31,6 +31,10 @@ type Buf struct {
 	n     int
 	spare int
 	want  []byte // expected contents of full
+	// sink: a buffer the caller hands over to be filled (io.Reader.Read(p)). While the call is open its data region
+	// may change; when it has returned n, data[:n] is whatever was delivered and everything else must be untouched.
+	sink bool
+	open bool
 }
 
 // NewBuf carves a buffer holding a copy of data with the given spare capacity.
@@ -63,11 +67,11 @@ func (b *Buf) Range() (lo, hi uintptr) {
 // (the first damaged region in that order of severity: data, spare, canary) and off the first offset
 // inside that region.
 func (b *Buf) Check() (region string, off int) {
-	if bytes.Equal(b.full, b.want) {
+	if b.Intact() {
 		return "", 0
 	}
 	d0, d1 := canaryLen, canaryLen+b.n
-	for i := d0; i < d1; i++ {
+	for i := d0; i < d1 && !b.open; i++ {
 		if b.full[i] != b.want[i] {
 			return "input", i - d0
 		}
@@ -78,11 +82,35 @@ func (b *Buf) Check() (region string, off int) {
 		}
 	}
 	for i := range b.full {
-		if b.full[i] != b.want[i] {
+		if b.full[i] != b.want[i] && !(b.open && i >= d0 && i < d1) {
 			return "canary", i
 		}
 	}
 	return "", 0
+}
+
+// Intact reports whether the buffer holds what the harness expects (for an open sink: outside its data region).
+func (b *Buf) Intact() bool {
+	if !b.open {
+		return bytes.Equal(b.full, b.want)
+	}
+	d0, d1 := canaryLen, canaryLen+b.n
+	return bytes.Equal(b.full[:d0], b.want[:d0]) && bytes.Equal(b.full[d1:], b.want[d1:])
+}
+
+// OpenSink marks the buffer as handed over to be filled.
+func (b *Buf) OpenSink() { b.sink, b.open = true, true }
+
+// Delivered closes a sink after the call returned n: data[:n] is accepted as delivered content.
+func (b *Buf) Delivered(n int) {
+	if n < 0 {
+		n = 0
+	}
+	if n > b.n {
+		n = b.n
+	}
+	copy(b.want[canaryLen:canaryLen+n], b.full[canaryLen:canaryLen+n])
+	b.open = false
 }
 
 // Heal makes the current contents the expected ones (after a reported, known violation).
